@@ -965,3 +965,6 @@ def explore(rep, br, tier, seed):
     _explore_without_t(rep, br, tier, seed)
     t_check.explore_t(rep, tier, seed, pid=ID, only=["directives"])
     t_check3.explore_directives3(rep, tier, seed, pid=ID)
+
+# session-7 addition to the claimed level (MANIFEST text only)
+LEVEL_TEXT = LEVEL_TEXT + " " + "Props/T_directives2.v: the whole bodies of .byte/.word/.dword regenerated from the AST (gen_pure3) are proved equal to the model's bodies."
